@@ -71,9 +71,18 @@ def run(ctx):
         ctx.run_rule("R4-error-conversion", r4_errors, F)
         ctx.run_rule("R6-field-coherence", r6_fields, F)
         ctx.run_rule("R7-decisions", r7_decisions, F, table)
+        ctx.run_rule("R9-fd-lifetime", r9_fd_lifetime, F)
+        from rules import c02
+        fl_ = (vf.NOUPD[0], vf.NOCAST[0])
+        ctx.run_rule("R8-conversions", c02.r8_conversions, F)        # SetattrIn -> stat64 feeds the attributes the setattr calls apply (shared with C02/C13)
+        vf.NOUPD[0], vf.NOCAST[0] = fl_
         from rules import c12
         ctx.run_rule("R8-toggle-use", c12.configured_toggle_readers, F, "R8-toggle-use")      # handlers consult the negotiated mode (shared with C12)
         ctx.run_rule("R5-flag-algebra", r5_flags, F, table)
+        A_ = ctx.facts("A", required=False)
+        if A_ is not None:
+            from rules import c20
+            ctx.run_rule("R5-passthrough-delegation", c20.r5_pfs, A_)     # the async entry points hand the request's arguments to the sync ones unchanged
     finally:
         vf.NOUPD[0] = False
         vf.NOCAST[0] = False
@@ -243,6 +252,30 @@ def r2_creds(ctx, F):
     cd = [x for x in F.fns.values() if x.name == "drop" and (x.self_adt or "").endswith("CapFsetid")]
     ok = len(cd) == 1 and any(c.name == "raise" for c in live_calls(cd[0]))
     ctx.check("R2-credentials", "CapFsetid/drop", ok, "CapFsetid::drop no longer raises CAP_FSETID", loc=cd[0].loc() if cd else "")
+
+
+def r9_fd_lifetime(ctx, F):
+    """A descriptor obtained with get_file() (an O_PATH fd, or under inode_file_handles a freshly opened one that closes when the
+    value is dropped) stays alive until the system calls that use it - directly or through its /proc/self/fd path - have run: no
+    drop of the holder may be followed by a libc call of the same function."""
+    n = 0
+    for k, b in sorted(F.fns.items()):
+        if not k.startswith("passthrough::") or "async_io" in k:
+            continue
+        holders = [i for i in range(len(b.locals)) if "InodeFile" in b.local_ty(i) and not b.local_ty(i).startswith("&")
+                   and "Result" not in b.local_ty(i) and "ControlFlow" not in b.local_ty(i)]
+        if not holders:
+            continue
+        libc = [c for c in live_calls(b) if (c.fn or "").startswith("libc::") and c.name not in ("__errno_location", "close")]
+        if not libc:
+            continue
+        n += 1
+        drops = [bb for bb in b.reachable() if not b.is_cleanup(bb) and b.term(bb)[0] == "drop" and b.term(bb)[1][0] in holders and len(b.term(bb)[1]) == 1]
+        bad = sorted(set(c.name for d in drops for c in libc if d != c.bb and b.can_reach(d, c.bb)))
+        owner = b.name if b.kind != "closure" else F.fns[b.owner].name + "/closure"
+        ctx.check("R9-fd-lifetime", owner, not bad, "%s drops the file it got from get_file() and calls %s afterwards: under inode_file_handles the descriptor "
+                  "(and the /proc/self/fd path built from it) is closed by then" % (owner, bad), loc=b.loc())
+    ctx.check("R9-fd-lifetime", "sites", n >= 10, "only %d functions holding an inode's file across system calls found" % n)
 
 
 def decisions(F):
